@@ -4,7 +4,8 @@ M1  MC_Style (laws over all triples of a small domain; construction-routes machi
 M2  MC_Style with CONSTRAINT Emit prints every construction route of GenDepth steps as JSON
 M3  Trace_Style judges records of what the real rich.style.Style did:
       triple  a, b, c and every sum of them (right bias, associativity, identity, combine/chain)
-      route   a TLC-generated route rebuilt with real constructors, step by step
+      route   a TLC-generated route rebuilt with real constructors, step by step (every route of 3 calls; TLC-simulated
+              and seeded random routes of 4..8 calls over every public route kind, hash()/str() taken mid-route)
       class   the end results of several routes that the model sends to the same abstract style
       gram    a style definition (token sequence) and what Style.parse made of it
     every record also carries ==/hash() observations for pairs of its objects and str()/normalize()
@@ -30,7 +31,10 @@ SPELL = {"bold": ["bold", "b"], "dim": ["dim", "d"], "italic": ["italic", "i"], 
 WORD_ATTR = {w: ATTRS.index(a) + 1 for a, ws in SPELL.items() for w in ws}
 KEYWORDS = ("not", "on", "link", "none")
 COLOR_TABLE_DIGEST = "b09f0f15e2be1c11131c0cdf57bde62ad4c2703b"    # ANSI_COLOR_NAMES of 9.10.0 (pin -> DRIFT)
-URLS = ["https://example.org/a", "http://x.y/?q=1#f", "bold", "file:///tmp/R%20ich"]
+URLS = ["https://example.org/a", "http://x.y/?q=1#f", "bold", "file:///tmp/R%20ich",
+        "on", "none", "link", "not", "default", "#frag", "HTTP://EXAMPLE.ORG/A", "https://example.org/a;b=c,d"]
+URLS0 = URLS[:4]
+URLS_E = URLS + ["", ""]        # "" : an empty link is no link (Style(link="") / update_link("")); never written into a definition
 NULLP = dict(attrs=["U"] * 13, fg=[], bg=[], link=0)
 
 RE_NUM = re.compile(r"color\((0|[1-9][0-9]{0,2})\)")
@@ -137,6 +141,8 @@ class Env:
             eq = False
         try:
             heq = hash(objs[i]) == hash(objs[j])
+            if eq and heq:      # ... and the one is found where the other is the key of a dict / member of a set
+                heq = objs[j] in {objs[i]: 0} and objs[i] in {objs[j]}
         except Exception:
             heq = False
         return dict(i=i + 1, j=j + 1, eq=eq, heq=heq)
@@ -187,20 +193,68 @@ def color_pool(env, rng, n_extra):
     return pool
 
 
+COLOR_HOWS = ["str", "str", "obj", "ctor", "upper", "padded", "objupper", "triplet", "float",
+              "blanks0", "blanks1", "blanks2", "objblanks0", "objblanks1", "objblanks2"]
+OBJ_HOWS = ["obj", "ctor", "objupper", "triplet", "float", "objblanks0", "objblanks1", "objblanks2"]
+
+
+def blank_rgb(spelling, k):
+    """rgb(r,g,b) spelled with white space inside the parentheses (Color.parse accepts it; a style definition cannot
+    carry it, since definitions are split at white space); other colours: padded"""
+    m = RE_RGB.fullmatch(spelling)
+    if not m:
+        return " %s " % spelling
+    return ["rgb(%s, %s, %s)", "RGB( %s,%s,%s )", "rgb(%s,\t%s,\t%s)"][k % 3] % m.groups()
+
+
+def empty_link(c):
+    """does the case hand over an empty link? (tag of the signatures)"""
+    if isinstance(c, dict):
+        return c.get("link") == "" or c.get("url") == "" or any(empty_link(v) for v in c.values())
+    return isinstance(c, list) and any(empty_link(v) for v in c)
+
+
+def rgb_with_whitespace(c):
+    """does the case hand over an rgb() colour spelled with white space? (tag of the signatures)"""
+    if isinstance(c, dict):
+        if "blanks" in str(c.get("cv", "")) and any(str(c.get(f) or "").startswith("rgb(") for f in ("color", "bgcolor", "fgs", "bgs")):
+            return True
+        return any(rgb_with_whitespace(v) for v in c.values())
+    if isinstance(c, list):
+        return any(rgb_with_whitespace(v) for v in c)
+    return False
+
+
 def color_arg(env, spelling, how):
-    """how a colour is handed to a constructor: the spelling, a parsed Color, or a Color factory"""
+    """how a colour is handed to a constructor: the spelling (as it is / upper case / blank padded: Color.parse is documented
+    to take them all to the same colour), a parsed Color, or a Color factory (default / from_ansi / from_rgb / from_triplet)"""
     C = env.Color
     if spelling is None:
         return None
     if how == "str":
         return spelling
+    if how == "upper":
+        return spelling.upper()
+    if how == "padded":
+        return " %s\t" % spelling
+    if how.startswith("blanks"):
+        return blank_rgb(spelling, int(how[-1]))
+    if how.startswith("objblanks"):
+        return C.parse(blank_rgb(spelling, int(how[-1])))
     w = env.color_word(spelling)
-    if how == "ctor":
+    if how == "objupper":
+        return C.parse(spelling.upper())
+    if how in ("ctor", "triplet", "float"):
         if w[0] == 0:
             return C.default()
         if w[0] == 2:
             return C.from_ansi(w[2])
         if w[0] == 3:
+            if how == "triplet":
+                from rich.color_triplet import ColorTriplet
+                return C.from_triplet(ColorTriplet(w[3], w[4], w[5]))
+            if how == "float":
+                return C.from_rgb(float(w[3]), float(w[4]), float(w[5]))
             return C.from_rgb(w[3], w[4], w[5])
     return C.parse(spelling)
 
@@ -218,7 +272,7 @@ def maker_abs(env, m):
     for a, v in m["kw"].items():
         attrs[ATTRS.index(a)] = "T" if v else "F"
     return dict(attrs=attrs, fg=color_val(env, m.get("color")), bg=color_val(env, m.get("bgcolor")),
-                link=0 if m.get("link") is None else env.wid(m["link"]))
+                link=0 if not m.get("link") else env.wid(m["link"]))
 
 
 def render_def(m, rng):
@@ -231,16 +285,25 @@ def render_def(m, rng):
         groups.append([m["color"]])
     if m.get("bgcolor") is not None:
         groups.append(["on", m["bgcolor"]])
-    if m.get("link") is not None:
+    if m.get("link"):
         groups.append(["link", m["link"]])
     rng.shuffle(groups)
     words = [w for g in groups for w in g]
     if not words:
-        return rng.choice(["none", "none", " none "])
-    return rng.choice([" ", " ", "  "]).join(words)
+        return rng.choice(["none", "none", " none ", "\tnone\n"])
+    r = rng.random()
+    if r < 0.6:
+        return rng.choice([" ", " ", "  "]).join(words)
+    # any run of white space separates words; leading / trailing white space is no word
+    out = rng.choice(["", "", " ", "\t", "\n "])
+    for i, w in enumerate(words):
+        out += w + (rng.choice([" ", "  ", "\t", "\n", " \t ", "\r\n"]) if i + 1 < len(words) else "")
+    return out + rng.choice(["", "", " ", "\n", "\t "])
 
 
 def make_real(env, m):
+    """the real style a maker describes.  via: kwargs | parse | normparse, and the derived constructions (m["base"] is the
+    maker the style is derived from; the description m itself is only used for labels - TLC gets projections)"""
     S = env.Style
     via = m.get("via", "kwargs")
     if via == "parse":
@@ -248,6 +311,21 @@ def make_real(env, m):
     if via == "normparse":
         return S.parse(S.normalize(m["d"]))
     how = m.get("cv", "str")
+    if via == "null":
+        return S.null()
+    if via == "fromcolor":
+        how = how if how in OBJ_HOWS else "obj"
+        return S.from_color(color_arg(env, m.get("color"), how), color_arg(env, m.get("bgcolor"), how))
+    if via == "ulink":
+        return make_real(env, m["base"]).update_link(m.get("link"))
+    if via == "wc":
+        return make_real(env, m["base"]).without_color
+    if via == "copy":
+        return make_real(env, m["base"]).copy()
+    if via == "bgstyle":
+        return make_real(env, m["base"]).background_style
+    if via == "sum":
+        return make_real(env, m["base"]) + make_real(env, m["right"])
     return S(color=color_arg(env, m.get("color"), how), bgcolor=color_arg(env, m.get("bgcolor"), how),
              link=m.get("link"), **m["kw"])
 
@@ -255,26 +333,42 @@ def make_real(env, m):
 BATCH = 40000
 KIND_ORDER = dict(route=0, gram=1, triple=2)
 KIND_ORDER["class"] = 3
-REAL_ONLY = ("kw", "color", "bgcolor", "link", "via", "cv", "d", "fgs", "bgs", "url")
+REAL_ONLY = ("kw", "color", "bgcolor", "link", "via", "cv", "d", "fgs", "bgs", "url", "gen", "base", "right")
+ALIAS_OPS = ("str", "hash", "addnone", "pick")          # calls that hand back the operand itself
 
 
 def run_route(env, steps):
     """steps: concrete steps.  Returns (record for TLC, meta for signatures)."""
     S = env.Style
     env.clear_caches()
-    pool, recs = [], []
+    pool, recs, early = [], [], []
     for st in steps:
         op = st["op"]
         if op in ("kwargs", "parse", "normparse"):
             fn = lambda: make_real(env, dict(st, via=op))
         elif op == "fromcolor":
-            fn = lambda: S.from_color(color_arg(env, st["fgs"], "obj"), color_arg(env, st["bgs"], "obj"))
+            fn = lambda: S.from_color(color_arg(env, st["fgs"], st.get("cv", "obj")), color_arg(env, st["bgs"], st.get("cv", "obj")))
+        elif op == "null":
+            fn = lambda: S.null()
         elif op == "add":
             fn = lambda: pool[st["i"] - 1] + pool[st["j"] - 1]
+        elif op == "addnone":
+            fn = lambda: pool[st["i"] - 1] + None
+        elif op == "pick":
+            fn = lambda: S.pick_first(None, pool[st["i"] - 1], pool[st["j"] - 1])
+        elif op == "bgstyle":
+            fn = lambda: pool[st["i"] - 1].background_style
+        elif op == "hash":
+            def fn():
+                early.append((st["i"] - 1, hash(pool[st["i"] - 1])))      # the hash as it is NOW, before later derivations
+                return pool[st["i"] - 1]
         elif op == "chain":
             fn = lambda: S.chain(*[pool[i - 1] for i in st["ix"]])
         elif op == "combine":
-            fn = lambda: S.combine([pool[i - 1] for i in st["ix"]])
+            if st.get("gen"):       # combine takes any iterable
+                fn = lambda: S.combine(pool[i - 1] for i in st["ix"])
+            else:
+                fn = lambda: S.combine([pool[i - 1] for i in st["ix"]])
         elif op == "copy":
             fn = lambda: pool[st["i"] - 1].copy()
         elif op == "ulink":
@@ -297,7 +391,7 @@ def run_route(env, steps):
         if op == "fromcolor":
             e["fg"], e["bg"] = color_val(env, st["fgs"]), color_val(env, st["bgs"])
         if op == "ulink":
-            e["l"] = 0 if st["url"] is None else env.wid(st["url"])
+            e["l"] = 0 if not st["url"] else env.wid(st["url"])
         e["out"] = o
         recs.append(e)
         if x is None:
@@ -314,6 +408,13 @@ def run_route(env, steps):
             objs.append(x)
             canon_ok.append(False)
     pairs = [env.pair(objs, i, j) for i, j in itertools.combinations(range(len(objs)), 2)]
+    # a hash taken mid-route is the hash of that style for good: against the object itself and its keyword twin, now
+    for l, h in early:
+        for j in (l, n + l):
+            try:
+                pairs.append(dict(i=l + 1, j=j + 1, eq=bool(objs[l] == objs[j]), heq=bool(h == hash(objs[j]))))
+            except Exception:
+                pass
     rts, seen = [], set()
     for i, x in enumerate(pool):
         if id(x) not in seen:
@@ -330,17 +431,39 @@ def run_route(env, steps):
     producer = []
     for l in range(n):
         st = steps[l]
-        producer.append(producer[st["i"] - 1] if st["op"] == "str" else _shape(st))
+        producer.append(producer[st["i"] - 1] if st["op"] in ALIAS_OPS else _shape(st))
     return rec, dict(culprit=culprit, producer=producer + ["kwargs"] * n, final=pool[-1] if n == len(steps) and pool else None)
 
 
 def _shape(st):
     op = st["op"]
     if op == "ulink":
-        return "ulink url=%s" % ("None" if st["url"] is None else "str")
+        return "ulink url=%s" % ("None" if st["url"] is None else "str" if st["url"] else "empty")
     if op == "fromcolor":
         return "fromcolor"
     return op
+
+
+def maker_steps(m):
+    """the construction of a maker (see make_real) written as a route"""
+    via = m.get("via", "kwargs")
+    if via in ("kwargs", "parse", "normparse"):
+        return [dict(m, op=via)]
+    if via == "null":
+        return [dict(op="null")]
+    if via == "fromcolor":
+        return [dict(op="fromcolor", fgs=m.get("color"), bgs=m.get("bgcolor"), cv=m.get("cv", "obj") if m.get("cv") in OBJ_HOWS else "obj")]
+    steps = maker_steps(m["base"])
+    k = len(steps)
+    if via == "sum":
+        steps += maker_steps(m["right"])
+        return steps + [dict(op="add", i=k, j=len(steps))]
+    if via == "ulink":
+        return steps + [dict(op="ulink", i=k, url=m.get("link"))]
+    return steps + [dict(op=via, i=k)]
+
+
+PRE = ["none", "none", "hash", "str", "both"]      # hash() / str() of the operands taken before the sums are built
 
 
 def run_triple(env, case):
@@ -350,14 +473,28 @@ def run_triple(env, case):
     made = []
     for m in ms:
         x, o = env.out(lambda: make_real(env, m))
-        if x is None:      # an operand could not even be built: judge that call on its own
-            return run_route(env, [dict(m, op=m.get("via", "kwargs"))])
+        if x is None:      # an operand could not even be built: judge its construction on its own, call by call
+            return run_route(env, maker_steps(m))
         made.append(x)
     a, b, c = made
+    for x in made:
+        try:
+            if case.get("pre") in ("hash", "both"):
+                hash(x)
+            if case.get("pre") in ("str", "both"):
+                str(x)
+        except Exception:
+            pass
     ab, o_ab = env.out(lambda: a + b)
     bc, o_bc = env.out(lambda: b + c)
-    ab_c, o_ab_c = env.out(lambda: (a + b) + c)
-    a_bc, o_a_bc = env.out(lambda: a + (b + c))
+    def touched(t):      # the intermediate sum is hashed / printed before it is added to
+        if case.get("pre") in ("hash", "both"):
+            hash(t)
+        if case.get("pre") in ("str", "both"):
+            str(t)
+        return t
+    ab_c, o_ab_c = env.out(lambda: touched(a + b) + c)
+    a_bc, o_a_bc = env.out(lambda: a + touched(b + c))
     an, o_an = env.out(lambda: a + S.null())
     na, o_na = env.out(lambda: S.null() + a)
     comb, o_comb = env.out(lambda: S.combine([a, b, c]))
@@ -433,7 +570,7 @@ RUN = dict(route=lambda env, c: run_route(env, c["steps"]), triple=run_triple, g
 class Binding:
     """a1, a2 -> two real attributes; the model's three colours and two links -> real ones"""
 
-    def __init__(self, env, idx, rng, cpool):
+    def __init__(self, env, idx, rng, cpool, wide=False):
         pairs = [(p, q) for p in ATTRS for q in ATTRS if p != q]
         self.idx = idx % len(pairs)
         self.a = dict(zip(("a1", "a2"), pairs[self.idx]))
@@ -442,6 +579,8 @@ class Binding:
         self.cols = cols
         self.links = {1: rng.choice(URLS), 2: None}
         self.links[2] = rng.choice([u for u in URLS if u != self.links[1]])
+        # wide: every seed style of the model also carries a fixed random setting of the other eleven attributes
+        self.wide, self.rng, self.extra = wide, rng, {}
 
     def color(self, mc):
         if not mc:
@@ -453,29 +592,44 @@ class Binding:
 
     def maker(self, st):
         kw = {self.a[k]: (v == "T") for k, v in sorted(st["attrs"].items()) if v != "U"}
+        if self.wide and st["attrs"] and any(v != "U" for v in st["attrs"].values()):
+            key = json.dumps(st, sort_keys=True)
+            if key not in self.extra:
+                self.extra[key] = {a: self.rng.random() < 0.5 for a in ATTRS
+                                   if a not in self.a.values() and self.rng.random() < 0.25}
+            kw = dict(self.extra[key], **kw)
         return dict(kw=kw, color=self.color(st["fg"]), bgcolor=self.color(st["bg"]),
                     link=self.links.get(st["link"]) if st["link"] else None)
 
 
-def instantiate(env, beh, bind, rng):
-    steps = []
+def instantiate(env, beh, bind, rng, again=0.0):
+    """again: probability that a definition already parsed in this route is parsed again verbatim (lru-cached Style.parse)"""
+    steps, defs = [], {}
     for o in beh:
         k = o["k"]
         if k in ("kwargs", "parse", "normparse"):
             m = bind.maker(o["st"])
             st = dict(m, op=k)
             if k == "kwargs":
-                st["cv"] = rng.choice(["str", "str", "obj", "ctor"])
+                st["cv"] = rng.choice(COLOR_HOWS)
             else:
-                st["d"] = render_def(m, rng)
+                key = json.dumps(o["st"], sort_keys=True)
+                st["d"] = defs[key] if key in defs and rng.random() < again else render_def(m, rng)
+                defs[key] = st["d"]
             steps.append(st)
         elif k == "fromcolor":
             f, b = bind.color(o["fg"]), bind.color(o["bg"])
-            steps.append(dict(op=k, fgs=f, bgs=b))
+            steps.append(dict(op=k, fgs=f, bgs=b, cv=rng.choice(OBJ_HOWS)))
+        elif k == "null":
+            steps.append(dict(op=k))
+        elif k == "pick":
+            steps.append(dict(op=k, i=o["i"], j=o["j"]))
+        elif k in ("hash", "addnone", "bgstyle"):
+            steps.append(dict(op=k, i=o["i"]))
         elif k == "add":
             steps.append(dict(op=k, i=o["i"], j=o["j"]))
         elif k in ("chain", "combine"):
-            steps.append(dict(op=k, ix=list(o["ix"])))
+            steps.append(dict(op=k, ix=list(o["ix"]), **({"gen": True} if k == "combine" and rng.random() < 0.3 else {})))
         elif k == "ulink":
             url = bind.links.get(o["l"]) if o["l"] else None
             steps.append(dict(op=k, i=o["i"], url=url))
@@ -487,25 +641,173 @@ def instantiate(env, beh, bind, rng):
 
 
 # ---- random styles over the whole domain ---------------------------------------------------------------
-def random_maker(rng, cpool, attrs=None, dens=0.25):
+def random_plain(rng, cpool, urls, dens=0.25):
     kw = {}
-    for a in (attrs or ATTRS):
+    for a in ATTRS:
         r = rng.random()
-        if attrs is not None:
-            v = rng.choice([None, True, False])
-        else:
-            v = True if r < dens else False if r < 2 * dens else None
+        v = True if r < dens else False if r < 2 * dens else None
         if v is not None:
             kw[a] = v
-    m = dict(kw=kw, color=rng.choice(cpool) if rng.random() < 0.5 else None,
-             bgcolor=rng.choice(cpool) if rng.random() < 0.4 else None,
-             link=rng.choice(URLS) if rng.random() < 0.35 else None)
-    m["via"] = rng.choice(["kwargs", "kwargs", "parse", "normparse"])
-    if m["via"] == "kwargs":
-        m["cv"] = rng.choice(["str", "obj", "ctor"])
-    else:
-        m["d"] = render_def(m, rng)
-    return m
+    return dict(kw=kw, color=rng.choice(cpool) if rng.random() < 0.5 else None,
+                bgcolor=rng.choice(cpool) if rng.random() < 0.4 else None,
+                link=rng.choice(urls) if rng.random() < 0.35 else None)
+
+
+def derive_via(rng, m, cpool, urls=URLS):
+    """choose how the style described by m (kw / color / bgcolor / link) gets constructed: by keywords, from a definition,
+    or derived from another style by one of the public routes (so that operands of the laws differ in their cached
+    fields and null flags, not only in their values)"""
+    plain = dict(kw=dict(m["kw"]), color=m.get("color"), bgcolor=m.get("bgcolor"), link=m.get("link"))
+    kwargs = lambda x: dict(x, via="kwargs", cv=rng.choice(COLOR_HOWS))
+    text = lambda x: dict(x, via=rng.choice(["parse", "normparse"]), d=render_def(x, rng))
+    simple = lambda x: kwargs(x) if rng.random() < 0.6 else text(x)
+    has_col = bool(plain["color"] or plain["bgcolor"])
+    empty = not (plain["kw"] or has_col or plain["link"])
+    r = rng.random()
+    if not plain["kw"] and not plain["link"] and rng.random() < 0.5:
+        if empty and r < 0.5:
+            return dict(plain, via="null")
+        if not plain["color"] and r < 0.75:
+            other = random_plain(rng, cpool, urls)
+            return dict(plain, via="bgstyle", base=simple(dict(other, bgcolor=plain["bgcolor"])))
+        return dict(plain, via="fromcolor", cv=rng.choice(OBJ_HOWS))
+    if r < 0.30:
+        return kwargs(plain)
+    if r < 0.54:
+        return text(plain)
+    if r < 0.66:
+        other = rng.choice([None, "", plain["link"]] + [u for u in urls[:3]])
+        if not plain["link"]:
+            plain["link"] = rng.choice([None, ""])          # update_link(None) / update_link("")
+        return dict(plain, via="ulink", base=simple(dict(plain, link=other)))
+    if r < 0.76 and not has_col:
+        return dict(plain, via="wc", base=simple(dict(plain, color=rng.choice(cpool), bgcolor=rng.choice([None] + cpool))))
+    if r < 0.84:
+        return dict(plain, via="copy", base=simple(plain))
+    if r < 0.94:
+        # m = left + right: right specifies a random part of m, left the rest of m and other values where right specifies
+        left, right = dict(plain, kw={}), dict(kw={}, color=None, bgcolor=None, link=None)
+        for a, v in plain["kw"].items():
+            if rng.random() < 0.5:
+                right["kw"][a] = v
+                if rng.random() < 0.5:
+                    left["kw"][a] = rng.random() < 0.5
+            else:
+                left["kw"][a] = v
+        for f, pool in (("color", cpool), ("bgcolor", cpool), ("link", urls)):
+            if plain[f] is not None and rng.random() < 0.5:
+                right[f] = plain[f]
+                left[f] = rng.choice([None, rng.choice(pool)])
+        return dict(plain, via="sum", base=simple(left), right=simple(right))
+    return kwargs(plain)
+
+
+def random_maker(rng, cpool, attrs=None, dens=0.25):
+    m, r = random_plain(rng, cpool, URLS_E, dens), rng.random()
+    if r < 0.06:            # sparse operands: the null style, colours only, background only, link only
+        m = dict(kw={}, color=None, bgcolor=None, link=None)
+    elif r < 0.14:
+        m = dict(kw={}, color=rng.choice([None] + cpool), bgcolor=rng.choice([None] + cpool), link=None)
+    elif r < 0.18:
+        m = dict(kw={}, color=None, bgcolor=rng.choice(cpool), link=None)
+    elif r < 0.22:
+        m = dict(kw={}, color=None, bgcolor=None, link=rng.choice(URLS_E))
+    return derive_via(rng, m, cpool)
+
+
+LONG_OPS = ["add", "add", "add", "addnone", "chain", "combine", "combine", "copy", "ulink", "ulink", "wc", "str", "hash",
+            "hash", "pick", "bgstyle"]
+
+
+def random_route(rng, cpool, n):
+    """a route of n public calls over full-width styles: leaves (keywords / definitions - now and then one that was parsed
+    before / from_color / null) and derivations, preferably of the newest object (without_color after update_link after
+    add after parse ...), with str() and hash() taken in between"""
+    urls, cols = rng.sample(URLS, 2) + ([""] if rng.random() < 0.35 else []), rng.sample(cpool, 3)
+    dens = rng.choice([0.08, 0.2])
+    steps, defs = [], []
+    while len(steps) < n:
+        N = len(steps)
+        if N == 0 or rng.random() < (0.5 if N < 2 else 0.2):
+            m, r = random_plain(rng, cols, urls, dens), rng.random()
+            if r < 0.35:
+                steps.append(dict(m, op="kwargs", cv=rng.choice(COLOR_HOWS)))
+            elif r < 0.7:
+                if defs and rng.random() < 0.4:
+                    m, d = rng.choice(defs)
+                else:
+                    d = render_def(m, rng)
+                    defs.append((m, d))
+                steps.append(dict(m, op=rng.choice(["parse", "parse", "normparse"]), d=d))
+            elif r < 0.9:
+                steps.append(dict(op="fromcolor", fgs=rng.choice([None] + cols), bgs=rng.choice([None] + cols), cv=rng.choice(OBJ_HOWS)))
+            else:
+                steps.append(dict(op="null"))
+            continue
+        pick = lambda: N if rng.random() < 0.5 else rng.randint(1, N)
+        op = rng.choice(LONG_OPS)
+        if op in ("add", "pick"):
+            steps.append(dict(op=op, i=pick(), j=pick()))
+        elif op in ("chain", "combine"):
+            st = dict(op=op, ix=[pick() for _ in range(rng.choice([1, 1, 2, 3, 4, 6]))])
+            if op == "combine" and rng.random() < 0.3:
+                st["gen"] = True
+            steps.append(st)
+        elif op == "ulink":
+            steps.append(dict(op=op, i=pick(), url=rng.choice([None] + urls)))
+        else:
+            steps.append(dict(op=op, i=pick()))
+    return steps
+
+
+def boundary_routes(cpool):
+    """hand-listed routes: rgb() colours spelled with white space inside (keywords / Color.parse, as foreground and background); a hash / str() taken from a derived style before it is derived from again, a definition parsed
+    again after its (cached) style was used, every route kind in one route; for every attribute, set and cleared"""
+    u1, u2 = URLS[0], URLS[3]
+    for k, rgb in enumerate(["rgb(1,2,3)", "rgb(4,5,6)", "rgb(0,0,0)", "rgb(255,255,255)", "rgb(175,0,255)", "rgb(12,200,7)"]):
+        for f in ("color", "bgcolor"):
+            K = lambda cv, **kw: dict(dict(op="kwargs", kw=kw, color=None, bgcolor=None, link=None, cv=cv), **{f: rgb})
+            yield [K("blanks%d" % (k % 3)), K("str"), dict(op="add", i=1, j=2), dict(op="add", i=2, j=1), dict(op="str", i=1), dict(op="copy", i=1),
+                   dict(op="ulink", i=1, url=u1), K("objblanks%d" % ((k + 1) % 3), bold=True), dict(op="add", i=8, j=1), dict(op="bgstyle", i=9)]
+            yield [dict(op="fromcolor", fgs=rgb if f == "color" else None, bgs=rgb if f == "bgcolor" else None, cv="objblanks%d" % (k % 3)),
+                   dict(op="fromcolor", fgs=rgb if f == "color" else None, bgs=rgb if f == "bgcolor" else None, cv="obj"),
+                   K("blanks%d" % ((k + 2) % 3), italic=False), dict(op="add", i=3, j=1), dict(op="combine", ix=[2, 3, 1])]
+    for n, a in enumerate(ATTRS):      # the empty link: Style(link="") / update_link(""), alone and beside every attribute
+        K = lambda link, **kw: dict(op="kwargs", kw=kw, color=None, bgcolor=None, link=link, cv="str")
+        yield [K(""), dict(op="null"), K(None), dict(op="add", i=1, j=2), K(u1, **{a: True}), dict(op="add", i=5, j=1), dict(op="add", i=1, j=5),
+               dict(op="ulink", i=5, url=""), dict(op="hash", i=8), dict(op="ulink", i=8, url=u1), dict(op="str", i=1), dict(op="copy", i=1)]
+        yield [K("", **{a: n % 2 == 0}), K(None, **{a: n % 2 == 0}), dict(op="hash", i=1), dict(op="ulink", i=1, url=""), dict(op="wc", i=4),
+               dict(op="combine", ix=[2, 1, 4]), K(u2), dict(op="ulink", i=7, url=""), dict(op="add", i=7, j=8), dict(op="bgstyle", i=1)]
+    for n, a in enumerate(ATTRS):
+        for v in (True, False):
+            b = ATTRS[(n + 5) % 13]
+            c1, c2 = cpool[(2 * n + v) % len(cpool)], cpool[(2 * n + v + 7) % len(cpool)]
+            A = dict(op="kwargs", kw={a: v}, color=None, bgcolor=None, link=None, cv="str")
+            B = dict(op="kwargs", kw={b: not v}, color=c1, bgcolor=None, link=None, cv="str")
+            L = dict(op="kwargs", kw={a: v}, color=None, bgcolor=c2, link=u1, cv="obj")
+            d = ("%s on %s" if v else "not %s on %s") % (a, c2)
+            P = dict(op="parse", kw={a: v}, color=None, bgcolor=c2, link=None, d=d)
+            tails = dict(ulink=lambda k: dict(op="ulink", i=k, url=u2), unlink=lambda k: dict(op="ulink", i=k, url=None),
+                         wc=lambda k: dict(op="wc", i=k), copy=lambda k: dict(op="copy", i=k), add=lambda k: dict(op="add", i=k, j=1),
+                         bgstyle=lambda k: dict(op="bgstyle", i=k))
+            for tail in (["ulink"], ["wc"], ["copy"], ["add"], ["bgstyle"], ["unlink", "wc"], ["ulink", "copy", "wc"]):
+                for mid in (["hash"], ["str"], ["hash", "str"]):
+                    steps = [A, B, dict(op="add", i=1, j=2)] + [dict(op=o, i=3) for o in mid]
+                    k = 3
+                    for t in tail:
+                        steps.append(tails[t](k))
+                        k = len(steps)
+                    yield steps
+            yield [L, dict(op="hash", i=1), dict(op="ulink", i=1, url=None), dict(op="wc", i=3), dict(op="hash", i=4), dict(op="ulink", i=4, url=u1)]
+            yield [dict(op="fromcolor", fgs=c1, bgs=None, cv="obj"), dict(op="hash", i=1), dict(op="ulink", i=1, url=u1), A,
+                   dict(op="add", i=1, j=4), dict(op="hash", i=5), dict(op="wc", i=5)]
+            yield [P, dict(op="ulink", i=1, url=u1), dict(P), dict(op="add", i=3, j=2), dict(op="str", i=1), dict(P, op="normparse"),
+                   dict(op="wc", i=6), dict(P)]
+            yield [dict(op="null"), A, dict(op="add", i=1, j=2), dict(op="add", i=2, j=1), dict(op="addnone", i=2),
+                   dict(op="combine", ix=[2]), dict(op="chain", ix=[2]), dict(op="combine", ix=[1, 1, 2, 1], gen=True), dict(op="pick", i=2, j=1)]
+            yield [P, B, dict(op="add", i=1, j=2), dict(op="ulink", i=3, url=u1), dict(op="wc", i=4), dict(op="copy", i=5),
+                   dict(op="hash", i=6), dict(op="str", i=6), dict(op="bgstyle", i=3), dict(op="combine", ix=[6, 9, 2, 1], gen=True),
+                   dict(op="chain", ix=[10, 7, 7]), dict(op="ulink", i=11, url=u1)]
 
 
 GRAM_WORDS = ([w for ws in SPELL.values() for w in ws] + list(KEYWORDS) + [
@@ -513,6 +815,12 @@ GRAM_WORDS = ([w for ws in SPELL.values() for w in ws] + list(KEYWORDS) + [
     "#000000", "#ffffff", "#af00ff", "rgb(175,0,255)", "rgb(0,0,0)", "rgb(255,255,255)", "rgb(256,0,0)",
     "foo", "bold2", "#12345", "rgb(1,2)", "https://example.org/a", "x",
     "BOLD", "Red", "#AF00FF", "NOT"])
+# further case variants (the documentation is silent on case: they are judged by the implementation-shaped part only)
+CASE_WORDS = ["ON", "Link", "NONE", "None", "Default", "COLOR(1)", "Rgb(1,2,3)", "UU", "B", "Bright_White"]
+GRAM_BOUNDARY = ["default", "on default", "default on default", "none", " none", "none ", "\tnone\n", " ", "\t", "\n",
+                 "none none", "not none", "on none", "link none", "link link", "link on", "link not", "link bold", "link red",
+                 "link default", "on on", "not not", "not on", "on not bold", "bold link", "red on", "not", "on", "link"]
+SEPS = [" ", " ", "  ", "\t", "\n", " \t ", "\r\n"]
 
 
 def gram_shape(env, d):
@@ -533,7 +841,8 @@ def run(chk: Check):
     env = Env()
     rng = chk.rng
     chk.rule = ("a case is one real execution judged by TLC: a triple of styles with all its sums; a construction "
-                "route (<= 3 constructor calls) under one binding of the model's attributes/colours/links to real "
+                "route (every route of <= 3 public calls; simulated / hand-listed / random routes of 4..12 calls over "
+                "every route kind incl. hash() and str() taken mid-route, + None, pick_first, background_style, combine of one / many) under one binding of the model's attributes/colours/links to real "
                 "ones; a class of routes with the same model value; a style definition.  Non-trivial = triple with "
                 ">= 2 non-null operands / route with a non-leaf constructor / class with >= 2 members / definition "
                 "with >= 2 words; de-duplicated on the concrete input")
@@ -541,8 +850,8 @@ def run(chk: Check):
                    "drivers/c06.py:Env.proj (Style -> attrs/colour/link via the public getters; Color -> type/number/triplet + spelling class of .name)",
                    "drivers/c06.py:Binding/instantiate (substitutes real attributes, colours, urls for the model's)",
                    "== and hash() are evaluated by Python and passed to TLC as booleans"]
-    chk.assumptions = ["links are non-empty and contain no whitespace; colours are default / a table name / color(n) / #rrggbb / rgb(r,g,b) "
-                       "in canonical decimal form or Color objects made by Color.parse/from_ansi/from_rgb/default",
+    chk.assumptions = ["links contain no whitespace (the empty link, which is no link, is handed over by keyword / update_link only); colours are default / a table name / color(n) / #rrggbb / rgb(r,g,b) "
+                       "in canonical decimal form (as strings also upper case / blank padded, rgb() also with white space inside the parentheses) or Color objects made by Color.parse/from_ansi/from_rgb/from_triplet/default",
                        "the colour-name table (ANSI_COLOR_NAMES) is data of the tree under test",
                        "lru caches of Style.parse/normalize and Color.parse are cleared before each case (isolation, replayability)",
                        "the value of copy/update_link/without_color/from_color/keywords is pinned by the implementation-shaped part only (DRIFT); "
@@ -617,7 +926,7 @@ def _nontrivial(kind, c):
     if kind == "triple":
         return sum(1 for m in c["abc"] if m["kw"] or m.get("color") or m.get("bgcolor") or m.get("link")) >= 2
     if kind == "route":
-        return any(s["op"] not in ("kwargs", "parse", "normparse", "fromcolor") for s in c["steps"])
+        return any(s["op"] not in ("kwargs", "parse", "normparse", "fromcolor", "null") for s in c["steps"])
     if kind == "class":
         return len(c["members"]) >= 2
     return len(c["d"].split()) >= 2
@@ -634,20 +943,34 @@ def _brief(kind, c):
         if op == "normparse":
             return "parse(normalize(%r))" % s["d"]
         if op == "fromcolor":
-            return "from_color(%s, %s)" % (s["fgs"], s["bgs"])
+            return "from_color(%s, %s)" % ((s["fgs"], s["bgs"]) if "fgs" in s else (s.get("color"), s.get("bgcolor")))
+        if op == "null":
+            return "Style.null()"
+        if op in ("wc", "copy", "bgstyle", "sum") and "base" in s:        # a derived operand of a triple
+            base = step(dict(s["base"], op=s["base"]["via"]))
+            if op == "sum":
+                return "(" + base + " + " + step(dict(s["right"], op=s["right"]["via"])) + ")"
+            return base + {"wc": ".without_color", "copy": ".copy()", "bgstyle": ".background_style"}[op]
+        if op == "ulink" and "base" in s:
+            return "%s.update_link(%r)" % (step(dict(s["base"], op=s["base"]["via"])), s.get("link"))
+        if op == "addnone":
+            return "#%d + None" % s["i"]
+        if op == "pick":
+            return "pick_first(None, #%d, #%d)" % (s["i"], s["j"])
         if op == "add":
             return "#%d + #%d" % (s["i"], s["j"])
         if op in ("chain", "combine"):
             return "%s(%s)" % (op, ",".join("#%d" % i for i in s["ix"]))
         if op == "ulink":
             return "#%d.update_link(%r)" % (s["i"], s["url"])
-        return {"copy": "#%d.copy()", "wc": "#%d.without_color", "str": "str(#%d)"}[op] % s["i"]
+        return {"copy": "#%d.copy()", "wc": "#%d.without_color", "str": "str(#%d)", "hash": "hash(#%d)",
+                "bgstyle": "#%d.background_style"}[op] % s["i"]
     if kind == "route":
         return [step(s) for s in c["steps"]]
     if kind == "class":
         return [[step(s) for s in m] for m in c["members"][:4]]
     if kind == "triple":
-        return [step(dict(m, op=m.get("via", "kwargs"))) for m in c["abc"]]
+        return [step(dict(m, op=m.get("via", "kwargs"))) for m in c["abc"]] + (["pre=" + c["pre"]] if c.get("pre", "none") != "none" else [])
     return c["d"]
 
 
@@ -694,6 +1017,10 @@ def signatures(env, kind, c, rec, meta, v):
     if v.startswith("roundtrip-"):
         parts = v.split()
         clause, i = parts[0] + _field(parts[2:]), int(parts[1]) - 1
+        if rgb_with_whitespace(c):
+            clause += " rgb-with-whitespace"
+        if empty_link(c):
+            clause += " empty-link"
         if kind == "route":
             return ["%s op=%s" % (clause, meta["producer"][i])]
         if kind == "triple":
@@ -715,7 +1042,9 @@ CFG = ("CONSTANTS\n  AttrSeq <- MCAttrSeq\n  NCol = %d\n  NLink = 2\n  NSeed = %
 LAW_INV = ["AssocAll", "IdentityAll", "RightBiasAll", "CombineAll", "DesignAddAll", "RoundTripAll", "ColorsSpelled", "UnaryAll"]
 ROUTE_INV = ["TypeOK", "Refines", "NullFlagSound", "MasksSound", "RouteRoundTrip", "HashConsistent", "HashExact"]
 ROUTE_ACTIONS = ["FromKwargs", "ParseDef", "NormParse", "FromColorOp", "AddOp", "ChainOp", "CombineOp", "CopyOp",
-                 "UpdateLinkOp", "WithoutColorOp", "StrOp"]
+                 "UpdateLinkOp", "WithoutColorOp", "StrOp",
+                 "NullOp", "HashOp", "AddNoneOp", "PickFirstOp", "BgStyleOp", "ChainIxOp", "CombineIxOp"]
+LONG_DEPTH = 7
 
 
 def generate(chk, env):
@@ -724,18 +1053,22 @@ def generate(chk, env):
     ncol, nseed, depth = chk.pick(2, 3), chk.pick(6, 9), 3
     law_cfg = CFG % (ncol, nseed, depth, "derived") + "INIT LawInit\nNEXT LawNext\n" + "".join(
         "INVARIANT %s\n" % i for i in LAW_INV) + "CHECK_DEADLOCK FALSE\n"
-    route_cfg = lambda design: CFG % (3, nseed, depth, design) + "SPECIFICATION RouteSpec\nVIEW View\n" + "".join(
+    route_cfg = lambda design: CFG % (3, nseed, depth, design) + "SPECIFICATION RouteSpecAll\nVIEW View\n" + "".join(
         "INVARIANT %s\n" % i for i in ROUTE_INV) + "CHECK_DEADLOCK FALSE\n"
     gen_cfg = CFG % (3, nseed, depth, "derived") + "SPECIFICATION RouteSpec\nCONSTRAINT Emit\nCHECK_DEADLOCK FALSE\n"
-    with ThreadPoolExecutor(4) as ex:
+    long_cfg = CFG % (3, 10, LONG_DEPTH, "derived") + "SPECIFICATION RouteSpecAll\nCONSTRAINT EmitFull\nCHECK_DEADLOCK FALSE\n"
+    with ThreadPoolExecutor(5) as ex:
         f_law = ex.submit(tlc.model_check, "MC_Style", cfg_text=law_cfg, coverage=False, tag="mc-law")
         f_rt = ex.submit(tlc.model_check, "MC_Style", cfg_text=route_cfg("derived"), workers=4, require_actions=ROUTE_ACTIONS, tag="mc-routes")
         f_st = ex.submit(tlc.model_check, "MC_Style", cfg_text=route_cfg("stored"), workers=2, coverage=False, tag="mc-stored")
         f_gen = ex.submit(tlc.behaviours, "MC_Style", cfg_text=gen_cfg, tag="gen-routes")
+        f_long = ex.submit(tlc.behaviours, "MC_Style", cfg_text=long_cfg, simulate="num=%d" % chk.pick(1200, 6000),
+                           depth=LONG_DEPTH + 2, seed=chk.seed + 1, tag="gen-long-routes")
         r_law, _, _ = f_law.result()
         r_rt, cov, missing = f_rt.result()
         r_st, _, _ = f_st.result()
         behs, r_gen = f_gen.result()
+        longs, r_long = f_long.result()
     # M1: laws over all triples
     nsty = 9 * (ncol + 1) ** 2 * 3
     chk.add_tlc(r_law, "M1-laws")
@@ -757,7 +1090,10 @@ def generate(chk, env):
     chk.add_tlc(r_gen, "M2")
     if not behs:
         raise tlc.TLCFailure("no routes generated\n" + r_gen.out[-2000:])
-    chk.notes["tlc_generated_routes"] = len(behs)
+    chk.add_tlc(r_long, "M2-simulate-depth-%d" % LONG_DEPTH)
+    if not longs:
+        raise tlc.TLCFailure("no long routes generated\n" + r_long.out[-2000:])
+    chk.notes["tlc_generated_routes"] = dict(exhaustive_depth_3=len(behs), simulated_depth_4_to_7=len(longs))
 
     chk.notes["phase_wall_s"] = dict(tlc_m1_m2=round(time.time() - t_gen, 1))
     cpool = color_pool(env, rng, chk.pick(20, 200))
@@ -774,7 +1110,7 @@ def generate(chk, env):
             for t in range(reps):
                 bi = (ci * K + (ri + t) % K) % 156
                 bind = bindings.get(bi) or bindings.setdefault(bi, Binding(env, bi, rng, cpool))
-                steps = instantiate(env, beh, bind, rng)
+                steps = instantiate(env, beh, bind, rng, again=0.5)
                 yield "route", dict(kind="route", steps=steps)
                 groups.setdefault((val, bi), []).append((tuple(o["k"] for o in beh), steps, bind))
     chk.notes["route_classes"] = len(classes)
@@ -788,6 +1124,23 @@ def generate(chk, env):
         canon = [dict(bind.maker(json.loads(val)), op="kwargs", cv="str")]
         for i in range(0, len(reps_), 7):
             yield "class", dict(kind="class", members=[canon] + reps_[i:i + 7])
+    # ---- long routes: TLC-simulated over every route kind (cut to 4..7 calls, every seed style widened to all thirteen
+    # attributes), hand-listed boundary routes, seeded random routes of 4..8 calls over full-width styles
+    ops_seen = {}
+    for n, b in enumerate(longs):
+        beh = b["beh"][:rng.randint(4, LONG_DEPTH)]
+        steps = instantiate(env, beh, Binding(env, rng.randrange(156), rng, cpool, wide=True), rng, again=0.5)
+        for st in steps:
+            ops_seen[st["op"]] = ops_seen.get(st["op"], 0) + 1
+        yield "route", dict(kind="route", steps=steps)
+    for steps in boundary_routes(cpool):
+        yield "route", dict(kind="route", steps=steps)
+    for _ in range(chk.pick(1500, 25000)):
+        steps = random_route(rng, cpool, rng.randint(4, 8))
+        for st in steps:
+            ops_seen[st["op"]] = ops_seen.get(st["op"], 0) + 1
+        yield "route", dict(kind="route", steps=steps)
+    chk.notes["long_route_calls_by_kind"] = ops_seen
     # ---- triples: every ordered pair of real attributes over the model's small domain, plus random full styles
     small = [None, "red", "#010203", "default"]
     per_pair = chk.pick(30, 729)
@@ -801,15 +1154,12 @@ def generate(chk, env):
             for k in range(3):
                 kw = {a: v for a, v in ((p, vs[2 * k]), (q, vs[2 * k + 1])) if v is not None}
                 m = dict(kw=kw, color=rng.choice(small), bgcolor=rng.choice(small),
-                         link=rng.choice([None, None, URLS[0], URLS[1]]), via="kwargs", cv=rng.choice(["str", "obj", "ctor"]))
-                if rng.random() < 0.3:
-                    m["via"] = "parse"
-                    m["d"] = render_def(m, rng)
-                abc.append(m)
-            yield "triple", dict(kind="triple", abc=abc)
+                         link=rng.choice([None, None, URLS[0], URLS[1], ""]))
+                abc.append(derive_via(rng, m, small[1:], URLS0))
+            yield "triple", dict(kind="triple", abc=abc, pre=rng.choice(PRE))
     for _ in range(chk.pick(2500, 40000)):
         dens = rng.choice([0.08, 0.2, 0.33])
-        yield "triple", dict(kind="triple", abc=[random_maker(rng, cpool, dens=dens) for _ in range(3)])
+        yield "triple", dict(kind="triple", abc=[random_maker(rng, cpool, dens=dens) for _ in range(3)], pre=rng.choice(PRE))
     # ---- grammar: all definitions of <= 2 (quick) / 3 (thorough) words, random longer ones
     words = GRAM_WORDS
     chk.notes["grammar_vocabulary"] = len(words)
@@ -817,6 +1167,23 @@ def generate(chk, env):
     for n in range(1, chk.pick(2, 3) + 1):
         for ws in itertools.product(words, repeat=n):
             yield "gram", dict(kind="gram", d=" ".join(ws))
+    for d in GRAM_BOUNDARY:
+        yield "gram", dict(kind="gram", d=d)
+    for w in CASE_WORDS:                              # each with every word of the vocabulary, both ways round
+        yield "gram", dict(kind="gram", d=w)
+        for v in words + CASE_WORDS:
+            yield "gram", dict(kind="gram", d=w + " " + v)
+            yield "gram", dict(kind="gram", d=v + " " + w)
+    # every documented spelling of a colour: each name of the table and each number, as foreground and as background
+    names = list(env.table)
+    for i, nm in enumerate(names):
+        yield "gram", dict(kind="gram", d=nm)
+        yield "gram", dict(kind="gram", d="on " + nm)
+        yield "gram", dict(kind="gram", d="%s on %s" % (names[(i * 7 + 3) % len(names)], nm))
+    for n in range(256):
+        yield "gram", dict(kind="gram", d="color(%d)" % n)
+        yield "gram", dict(kind="gram", d="%s on color(%d)" % (rng.choice(SPELL[ATTRS[n % 13]]), n))
+    chk.notes["colour_names_each_as_fg_and_bg"] = len(names)
     for _ in range(chk.pick(6000, 80000)):
         n = rng.randint(3, 6)
         ws = []
@@ -833,4 +1200,9 @@ def generate(chk, env):
                 ws.append(rng.choice(cpool))
             else:
                 ws.append(w)
-        yield "gram", dict(kind="gram", d=" ".join(ws))
+        if rng.random() < 0.5:
+            d = " ".join(ws)
+        else:          # words are separated by any white space; white space around the definition is no word
+            d = rng.choice(["", "", " ", "\t", "\n"]) + "".join(
+                w + (rng.choice(SEPS) if i + 1 < len(ws) else "") for i, w in enumerate(ws)) + rng.choice(["", "", " ", "\n"])
+        yield "gram", dict(kind="gram", d=d)
